@@ -29,18 +29,22 @@ pub enum Fmt {
     JsonPretty,
     /// serde_json::Value tree (object members come back in sorted key order)
     JsonValue,
+    /// SimStore tree written AND read as a format whose is_human_readable() is
+    /// false (compact binary self-describing formats)
+    TreeBinary,
 }
 
 impl Fmt {
     pub fn pick(rng: &mut crate::util::SplitMix, image_finite: bool) -> Fmt {
         if !image_finite {
             // JSON cannot carry non-finite numbers: not a format "that preserves f64 exactly"
-            return Fmt::Tree;
+            return if rng.chance(1, 3) { Fmt::TreeBinary } else { Fmt::Tree };
         }
-        match rng.below(6) {
+        match rng.below(8) {
             0 => Fmt::Json,
             1 => Fmt::JsonPretty,
             2 => Fmt::JsonValue,
+            3 | 4 => Fmt::TreeBinary,
             _ => Fmt::Tree,
         }
     }
@@ -133,6 +137,7 @@ pub struct Scenario {
 #[derive(Clone, Debug)]
 pub enum Durable {
     Tree(Tree),
+    TreeBinary(Tree),
     Json(String),
     JsonValue(serde_json::Value),
 }
@@ -189,6 +194,7 @@ fn current(env: &Env, cs: &ClientState, e: usize) -> Arc<dyn Sampler> {
 fn persist(s: &dyn Sampler, fmt: Fmt) -> Result<Durable, String> {
     match fmt {
         Fmt::Tree => Ok(Durable::Tree(s.image())),
+        Fmt::TreeBinary => Ok(Durable::TreeBinary(s.image_binary())),
         Fmt::Json => s.to_json().map(Durable::Json),
         Fmt::JsonPretty => s.to_json_pretty().map(Durable::Json),
         Fmt::JsonValue => s.to_json_value().map(Durable::JsonValue),
@@ -289,7 +295,7 @@ fn exec_on(envs: &[Arc<Env>], e: usize, cs: &mut ClientState, op: &Op, record_tr
             match persist(&*s, *fmt) {
                 Ok(d) => {
                     let h = match &d {
-                        Durable::Tree(t) => t.digest(),
+                        Durable::Tree(t) | Durable::TreeBinary(t) => t.digest(),
                         Durable::Json(j) => hash_str(j),
                         Durable::JsonValue(v) => hash_str(&v.to_string()),
                     };
@@ -314,7 +320,16 @@ fn exec_on(envs: &[Arc<Env>], e: usize, cs: &mut ClientState, op: &Op, record_tr
                 Err(e) => Outcome::Err(format!("persist failed: {}", e)),
                 Ok(d) => {
                     let restored = match &d {
-                        Durable::Tree(t) => sampler::restore_tree(env.spec.d, t, *behaviour),
+                        Durable::Tree(t) => {
+                            let mut b = *behaviour;
+                            b.binary = false;
+                            sampler::restore_tree(env.spec.d, t, b)
+                        }
+                        Durable::TreeBinary(t) => {
+                            let mut b = *behaviour;
+                            b.binary = true;
+                            sampler::restore_tree(env.spec.d, t, b)
+                        }
                         Durable::Json(j) => sampler::restore_json(env.spec.d, j),
                         Durable::JsonValue(v) => sampler::restore_json_value(env.spec.d, v),
                     };
